@@ -275,8 +275,21 @@ func Constructed(r *vlib.Rand, n int) [][]byte {
 }
 
 func tcpOptions(r *vlib.Rand) []byte {
-	var o []byte
+	var out []byte
 	for k := r.Intn(4); k > 0; k-- {
+		if opt := tcpOption(r); len(out)+len(opt) <= 40 {
+			out = append(out, opt...) // an option that does not fit into the 40 bytes is left out as a whole
+		}
+	}
+	for len(out)%4 != 0 {
+		out = append(out, 0)
+	}
+	return out
+}
+
+func tcpOption(r *vlib.Rand) []byte {
+	var o []byte
+	for k := 1; k > 0; k-- {
 		switch r.Intn(8) {
 		case 0:
 			o = append(o, 2, 4, r.Byte(), r.Byte()) // MSS
@@ -327,12 +340,6 @@ func tcpOptions(r *vlib.Rand) []byte {
 			o = append(o, byte(r.Range(9, 29)), byte(ln))
 			o = append(o, r.Bytes(ln-2)...)
 		}
-	}
-	for len(o)%4 != 0 {
-		o = append(o, 0)
-	}
-	if len(o) > 40 {
-		o = o[:40]
 	}
 	return o
 }
